@@ -78,7 +78,15 @@ def _tree(depth):
 
 @st.composite
 def _case(draw, depth):
-    kind = draw(st.sampled_from(["grammar"] * 8 + ["near-miss"] * 2))
+    kind = draw(st.sampled_from(["grammar"] * 8 + ["near-miss"] * 2 + ["shape"]))
+    if kind == "shape":
+        # <identifier><sign><literal>**<x> with nothing else at that level: the unchanged translator reads every member of this family
+        # correctly (unlike the recorded glued-literal finding, which needs a further additive term); kept as a family of its own so
+        # that a misreading here is reported and not filed under that finding
+        pre, post = draw(st.sampled_from([("", ""), ("1.0d-10*(", ")"), ("exp(", ")"), ("vtb2*(", ")*2.0d0"), ("1.5d-3/(", ")")]))
+        text = (pre + draw(st.sampled_from(["Tgas", "T32", "invT", "vt_a", "x_1"])) + draw(st.sampled_from(["+", "-"])) + draw(st.sampled_from(["2.0", "0.5d0", "3.0e2", "1.5d-3", "7", "2d0"]))
+                + "**" + draw(st.sampled_from(["2.0", "vt_a", "(0.5)", "2", "invT"])) + post)
+        return {"kind": "text", "text": text, "seedvals": draw(st.integers(0, 10 ** 6)), "family": "ident-sign-literal-power"}
     tree = draw(_tree(depth))
     if draw(st.integers(0, 14)) == 0:
         # a signed literal directly in front of ** (inside the translator's grammar through its signed numbers)
@@ -314,6 +322,11 @@ def check_case(case, tier):
         except (FT.FortranSyntaxError, KeyError, IndexError):
             return CaseResult(discarded=True)  # not a Fortran expression in my reader's vocabulary
         st_, ctext = compare_text(case["text"], tree, seed, failures, labels)
+        # these texts (the fixed list, the ident-sign-literal-power family) are translated correctly by the unchanged tree: a wrong value
+        # here is never the recorded glued-literal finding, whatever the alternative oracle says about blanks
+        failures[:] = [("krome/ident-sign-literal-power-misread" if k == "krome/signed-literal-glued-to-identifier" else k, m) for k, m in failures]
+        if case.get("family"):
+            labels.append("family-" + case["family"])
         feats = FT.features(tree)
         return CaseResult(failures, True, labels + sorted(feats), sample={"fortran": case["text"], "c": ctext})
     tree = case["tree"]
